@@ -8,10 +8,10 @@ Definition oracle_p (v : verdict) : bool := v_results_ok v && v_writes v.
 
 Definition check (x : c4case * c4out) : Z :=
   match x with
-  | (C4P pc, C4PO p) => code (corr_exact pc p) (oracle_p (judge pc p))
+  | (C4P pc, C4PO p) => code (corr_ops pc p) (oracle_p (judge pc p))
   | (C4L2 pc, C4PO2 p) =>
       match model_of_id (pc_model pc) with
-      | Some m => code (match run_pcase2 pc with Some mo => pout2_eqb mo p | None => false end)
+      | Some m => code (match run_pcase2 pc with Some mo => pout2_ops_eqb mo p | None => false end)
                        (let v := judge pc (decode_pout2 pc m p) in v_results_ok v && v_picture v && v_no_anomaly v)
       | None => 3
       end
